@@ -1355,7 +1355,8 @@ class Vector():
 			if hasattr(other, 'cols') and other.ndims() == 2:
 				# Returns a tuple of vectors, wrapped in a new Vector (which becomes Table)
 				result = self.copy(tuple(self @ col for col in other.cols()))
-				result.name = None
+				# (the stored name directly: a Table refuses `result.name = ...` as an unknown column)
+				result._name = None
 				return result
 
 			# 1b. Matrix @ Vector
